@@ -362,7 +362,7 @@ def run_op(sd: SuccessionDiagram, op: dict, timeout_s: float = 20.0) -> tuple[Su
     LOOPS.clear()
     CTX.solver_calls = 0
     CTX.fail_at = ev["fail_at"] or None
-    CTX.blockmode = kind == "block"
+    CTX.blockmode = kind in ("block", "scc")
     WORK.take()
     if kind in ("min", "skipmin") and 0 <= n < len(sd):
         start_space = dict(sd.node_data(n)["space"])
@@ -498,7 +498,7 @@ def run_op(sd: SuccessionDiagram, op: dict, timeout_s: float = 20.0) -> tuple[Su
     ev["out"] = out
     ev["xl"] = list(CTX.xl)
     ev["solver_calls"] = CTX.solver_calls
-    ev["orc"] = list(CTX.orc) if kind in ("aseeds", "block") else []
+    ev["orc"] = list(CTX.orc) if kind in ("aseeds", "block", "scc") else []
     if CTX.mts and kind in ("min", "aseeds", "skipmin", "skiprem"):
         ev["mts"] = [vec(start_space | x, names) for x in CTX.mts[0]]
     ev["loops"] = list(LOOPS)
